@@ -59,6 +59,12 @@ CLAIMS = {
             'script/style) x every integer position: match() is the innermost strictly enclosing element with exact open/close/'
             'attribute ranges, balanced_outward lists all enclosing elements, balanced_inward the first-child chain; comment, CDATA, '
             'PI, script and attribute-value contents of up to n free characters never contribute or move tags.', '§3 C09'),
+    'C10': ('bounded symbolic execution (CrossHair/z3) of the real CSS matcher on stylesheets assembled from solver-chosen events with '
+            'recorded ground truth, symbolic integer position; symbolic content holes',
+            'Every well-formed stylesheet of up to K events (rules, at-rules, nested rules, semicolon-terminated declarations, comments; '
+            'several top-level rules) x every integer position: match() is the innermost declaration/rule with exact ranges, '
+            'balanced_outward lists value, declaration and every enclosing rule (content, full), balanced_inward the first-child chain; '
+            'string/comment/parenthesis/selector/value contents of up to n free characters never delimit anything.', '§3 C10'),
     'C11': ('bounded symbolic execution (CrossHair/z3) of the real extract_abbreviation over all short lines x all integer carets x '
             'option sets, plus templates with concrete valid abbreviations and symbolic left/right context',
             'Consistency clauses: path tree of the real extractor exhausted for every ASCII line up to the stated length, every '
